@@ -160,6 +160,11 @@ pub fn test_bytes(b: &[u8], texts: &[String], trailing: &[u8], full_faults: bool
             if v == MODEL_MAGIC[i] {
                 continue;
             }
+            // (files above 64 KiB: three single-bit changes per byte and every value of the last
+            // byte; the full enumeration runs on every smaller file)
+            if b.len() > 65536 && i + 1 != MODEL_MAGIC.len() && ![1u8, 0x20, 0x80].contains(&(v ^ MODEL_MAGIC[i])) {
+                continue;
+            }
             joined[i] = v;
             let (r1, r2) = (Model::read(joined.as_slice()).is_err(), Model::read_slice(&joined).is_err());
             joined[i] = MODEL_MAGIC[i];
@@ -279,7 +284,14 @@ fn edge_cases() -> Vec<FileCase> {
     };
     // a file of a few hundred KiB: thousands of tag models (strided truncation / faults)
     let big = crate::checks::c14::large_model(&crate::checks::c14::LargeCase { n_tag_models: 5000, n_char_ngrams: 300, n_words: 40, n_long_words: 0, long_text: 0 }).spec;
-    let mut cases: Vec<FileCase> = [empty, dict_only, wide, big]
+    // tables whose sizes are exact powers of two
+    let pow2: Vec<ModelSpec> = [(4096usize, 4096usize, 4096usize), (0, 8192, 8192), (1, 65536, 0)]
+        .into_iter()
+        .map(|(t, g, w)| crate::checks::c14::large_model(&crate::checks::c14::LargeCase { n_tag_models: t, n_char_ngrams: g, n_words: w, n_long_words: 0, long_text: 0 }).spec)
+        .collect();
+    // lengths around the boundaries of the variable-length integer encoding
+    let varint: Vec<ModelSpec> = crate::checks::c14::varint_cases().into_iter().map(|c| c.spec).collect();
+    let mut cases: Vec<FileCase> = [vec![empty, dict_only, wide, big], pow2, varint].concat()
         .into_iter()
         .map(|spec| FileCase { spec, texts: texts.clone(), trailing: vec![1, 2, 3] })
         .collect();
